@@ -207,7 +207,7 @@ fn image(w: usize, h: usize, family: u32, src: &mut dyn FnMut() -> u8) -> Vec<u8
                 }
             }
         }
-        _ => {
+        2 => {
             for v in img.iter_mut() {
                 *v = match src() & 3 {
                     0 => 0,
@@ -215,6 +215,32 @@ fn image(w: usize, h: usize, family: u32, src: &mut dyn FnMut() -> u8) -> Vec<u8
                     2 => 1,
                     _ => 254,
                 };
+            }
+        }
+        3 => {
+            // plateaus inside ramps: samples are equal in pairs that straddle every block edge
+            // (row 7 == row 8, column 7 == column 8, ...) while the outer samples of the four differ
+            let base = src() as i32;
+            let kx = (src() % 25) as i32 - 12;
+            let ky = (src() % 25) as i32 - 12;
+            let per_col = src() & 1 == 1;
+            let cols: Vec<i32> = (0..w).map(|_| if per_col { (src() % 40) as i32 } else { 0 }).collect();
+            for y in 0..h {
+                for x in 0..w {
+                    let v = base + cols[x] + kx * ((x as i32 + 1) / 2) + ky * ((y as i32 + 1) / 2);
+                    img[x + y * w] = v.rem_euclid(512).min(511 - v.rem_euclid(512)).clamp(0, 255) as u8;
+                }
+            }
+        }
+        _ => {
+            // constant rows or constant columns (every lane of a vector chunk sees the same pattern)
+            let rows = src() & 1 == 0;
+            let n = if rows { h } else { w };
+            let vals: Vec<u8> = (0..n).map(|_| src()).collect();
+            for y in 0..h {
+                for x in 0..w {
+                    img[x + y * w] = if rows { vals[y] } else { vals[x] };
+                }
             }
         }
     }
@@ -242,7 +268,7 @@ fn check_image(img: &[u8], w: usize, s: u8) -> Result<bool, String> {
 fn grid_item(seed: u64, wmax: u64, i: u64, acc: &mut Acc) {
     let w = (i % wmax + 1) as usize;
     let h = (i / wmax) as usize;
-    for family in 0..3u32 {
+    for family in 0..5u32 {
         for s in 1..=12u8 {
             let bytes = super::content_bytes(seed ^ ((w as u64) << 24) ^ ((h as u64) << 12) ^ ((family as u64) << 4) ^ s as u64, w * h * 2 + 128);
             let mut k = 0;
@@ -261,16 +287,16 @@ fn grid_item(seed: u64, wmax: u64, i: u64, acc: &mut Acc) {
         }
     }
     if w % 8 != 0 && h >= 10 {
-        acc.label_n("horizontal edge with remainder columns", 36);
+        acc.label_n("horizontal edge with remainder columns", 60);
     }
     if h % 8 != 0 && w >= 10 {
-        acc.label_n("vertical edge with remainder rows", 36);
+        acc.label_n("vertical edge with remainder rows", 60);
     }
     if h < 10 && w < 10 {
-        acc.label_n("no filterable edge", 36);
+        acc.label_n("no filterable edge", 60);
     }
     if w == 19 && h == 11 {
-        acc.sample(|| json!({"w": w, "h": h, "families": ["hash bytes", "piecewise flat 8x8 blocks", "extremes"], "strengths": "1..=12"}));
+        acc.sample(|| json!({"w": w, "h": h, "families": ["hash bytes", "piecewise flat 8x8 blocks", "extremes", "plateaus in ramps", "constant rows / columns"], "strengths": "1..=12"}));
     }
 }
 
@@ -279,7 +305,7 @@ fn random_image_case(g: &mut Gen, wmax: i64, hmax: i64) -> Verdict {
     let hcap = (6000 / w as i64).clamp(1, hmax);
     let h = g.range(0, hcap) as usize;
     let s = g.range(1, 12) as u8;
-    let family = g.below(3);
+    let family = g.below(5);
     let mut src = || g.byte();
     let img = image(w, h, family, &mut src);
     g.describe(|| json!({"w": w, "h": h, "strength": s, "family": family, "head": &img[..img.len().min(24)]}));
@@ -288,8 +314,39 @@ fn random_image_case(g: &mut Gen, wmax: i64, hmax: i64) -> Verdict {
         Ok(nt) => Verdict::pass_l(
             nt,
             fnv64(&img) ^ ((w as u64) << 40) ^ ((s as u64) << 56),
-            vec![["uniform", "piecewise flat", "extremes"][family as usize]],
+            vec![["uniform", "piecewise flat", "extremes", "plateaus in ramps", "constant rows / columns"][family as usize]],
         ),
+    }
+}
+
+/// Images far larger in one dimension than any picture: widths / heights around 2^12, 2^13, 2^16.
+const EXTREME: [usize; 27] = [2047, 2048, 2049, 4094, 4095, 4096, 4097, 4098, 4099, 4104, 4106, 8190, 8192, 8193, 8194, 8202, 16384, 16394, 32768, 32778, 65535, 65536, 65537, 65538, 65546, 65560, 131082];
+const SMALL: [usize; 8] = [7, 8, 9, 10, 11, 16, 18, 19];
+
+fn extreme_item(seed: u64, i: u64, acc: &mut Acc) {
+    let big = EXTREME[(i % 27) as usize];
+    let small = SMALL[((i / 27) % 8) as usize];
+    let wide = (i / 216) % 2 == 0;
+    let (w, h) = if wide { (big, small) } else { (small, big) };
+    for (family, s) in [(1u32, 4u8), (3, 9), (4, 12)] {
+        let bytes = super::content_bytes(seed ^ ((w as u64) << 24) ^ ((h as u64) << 4) ^ family as u64, 8192);
+        let mut k = 0;
+        let mut src = || {
+            k += 1;
+            bytes[(k - 1) % bytes.len()]
+        };
+        let img = image(w, h, family, &mut src);
+        match check_image(&img, w, s) {
+            Err(m) => {
+                acc.fail(json!({"kind":"params","w":w,"h":h,"family":family,"strength":s,"extreme":true,"item":i}), m);
+                return;
+            }
+            Ok(nt) => acc.count(nt),
+        }
+    }
+    acc.label_n(if wide { "very wide" } else { "very tall" }, 3);
+    if i == 5 {
+        acc.sample(|| json!({"w": w, "h": h, "families": ["piecewise flat", "plateaus in ramps", "constant rows / columns"], "strengths": [4, 9, 12]}));
     }
 }
 
@@ -299,6 +356,7 @@ pub fn run(ctx: &Ctx) -> i32 {
     let gw = ctx.tier.pick(48u64, 96u64);
     let gh = ctx.tier.pick(48u64, 64u64);
     reports.push(exhaustive_suite(ctx, "size_grid", gw * (gh + 1), &move |i, acc| grid_item(seed, gw, i, acc)));
+    reports.push(exhaustive_suite(ctx, "extreme_aspect", 432, &move |i, acc| extreme_item(seed, i, acc)));
     reports.push(exhaustive_suite(ctx, "kernel_lattice", 28 * 28, &lattice_item));
     let kc = ctx.tier.pick(120_000u64, 1_000_000u64);
     reports.push(tape_suite(ctx, "kernel_random", kc, 1504, &random_kernel_case));
@@ -351,6 +409,14 @@ pub fn replay(suite: &str, case: &Value) -> Option<Verdict> {
             } else {
                 full_item((a as u64) << 8 | b as u64, &mut acc);
             }
+            Some(match acc.failure {
+                Some((_, _, m, _)) => Verdict::fail(m),
+                None => Verdict::pass(true, 0),
+            })
+        }
+        "extreme_aspect" => {
+            let mut acc = Acc::default();
+            extreme_item(case["seed"].as_u64().unwrap_or(1), case["item"].as_u64()?, &mut acc);
             Some(match acc.failure {
                 Some((_, _, m, _)) => Verdict::fail(m),
                 None => Verdict::pass(true, 0),
